@@ -1,6 +1,6 @@
 #!/usr/bin/env python3
 """Entry point of every registered check:  python3 tools/check.py <Cnn> [--tier quick|thorough] [--replay file]"""
-import sys, os, json, argparse
+import sys, os, json, argparse, re
 sys.path.insert(0, os.path.dirname(os.path.abspath(__file__)))
 import vlib, hashcheck, aescheck, c12check
 
@@ -30,7 +30,7 @@ def check_hash(pid, tier, replay=None):
     for name, detail in failed:
         chk.violation("Lean obligation no longer checks: %s" % name,
                       {"kind": "obligation", "obligation": name, "detail": detail}, no_input=True)
-    drv = vlib.harness_bin("drv_hash")
+    drv = vlib.harness_bin("drv_hash", extra_src=vlib.TRAMP_SRC)
     if replay:
         rp = json.load(open(replay))
         a = rp["args"]
@@ -121,7 +121,7 @@ def check_aes(pid, tier, replay=None):
     for name, detail in vlib.lean_obligations(chk, module, thms, extra_targets=["isal_model"]):
         chk.violation("Lean obligation no longer checks: %s" % name,
                       {"kind": "obligation", "obligation": name, "detail": detail}, no_input=True)
-    drv = vlib.harness_bin("drv_aes")
+    drv = vlib.harness_bin("drv_aes", extra_src=vlib.TRAMP_SRC)
     if replay:
         rp = json.load(open(replay))
         a = rp["args"]
@@ -470,6 +470,131 @@ def check_c12(pid, tier, replay=None):
                       "architectural rules); distinct_nontrivial = distinct (entry, selected target) pairs observed")
 
 
+def _mode_sweep(chk, tier, env_list, prefixes, want_hash=True, want_aes=True, compare_streams=False):
+    """run the hash and AES drivers under the given environment modes; returns (results, total ops)"""
+    hdrv = vlib.harness_bin("drv_hash", extra_src=vlib.TRAMP_SRC)
+    adrv = vlib.harness_bin("drv_aes", extra_src=vlib.TRAMP_SRC)
+    nops_h, maxlen_h = (1500, 3000) if tier == "quick" else (20000, 100000)
+    nops_a, maxlen_a = (400, 2500) if tier == "quick" else (5000, 40000)
+    seeds = [chk.seed] if tier == "quick" else [chk.seed * 100 + k for k in range(3)]
+    out = []
+    for env in env_list:
+        tag = ",".join("%s=%s" % kv for kv in sorted(env.items())) or "plain"
+        if want_hash:
+            for r in hashcheck.sweep(chk, hdrv, nops_h, maxlen_h, 5, seeds, env=env, poison=int(env.get("VERIF_POISON", "0"))):
+                out.append(("hash", "%s/%s" % (r["alg"], r["fam"]), tag, r))
+        if want_aes:
+            jobs = [(w, f, sd, nops_a, maxlen_a) for (w, f) in aescheck.ALL for sd in seeds]
+            for r in aescheck.sweep(adrv, jobs, env=env):
+                out.append(("aes", "%s/%s" % (r["what"], r["fam"]), tag, r))
+    return out
+
+
+def _report_mode_results(chk, results, prefixes, known_monitor_key=None):
+    total = 0
+    for kind, key, tag, r in results:
+        total += r["ops"]
+        mine = [m for m in r["monitors"] if any(p in m for p in prefixes) or m.startswith("CRASH")]
+        ok = not mine and not r["diffs"]
+        chk.oblige("%s %s [%s] seed=%s" % (kind, key, tag, r["args"][2]), ok, "ops=%d diffs=%d monitors=%d" % (r["ops"], len(r["diffs"]), len(mine)))
+        if mine:
+            seen = set()
+            for m in mine:
+                t = m.split()
+                what = t[1] if len(t) > 1 else m
+                detail = " ".join(x for x in t[2:] if x.startswith(("what=", "value=", "op=")))[:120]
+                # "value=" may contain spaces inside quotes
+                mm = re.search(r'what=(\S+) value="([^"]*)"', m)
+                if mm:
+                    detail = "what=%s value=%s" % (mm.group(1), mm.group(2))
+                k2 = (what, detail)
+                if k2 in seen:
+                    continue
+                seen.add(k2)
+                chk.violation("%s %s in %s" % (what, detail, key),
+                              {"kind": "input", "family": key, "mode": tag, "args": r["args"], "monitor": m[:300], "minimized": False},
+                              match={"family": key, "monitor": what, "detail": detail})
+        elif r["diffs"]:
+            chk.violation("result differs from the model under mode [%s] in %s" % (tag, key),
+                          {"kind": "input", "family": key, "mode": tag, "args": r["args"], "first_disagreement": r["diffs"][0]},
+                          match={"family": key, "monitor": "diff"})
+        if len(chk.samples) < 6 and r.get("sample"):
+            chk.samples.append({"family": key, "mode": tag, "ops": r["sample"][:2]})
+    return total
+
+
+def check_c20(pid, tier, replay=None):
+    chk = vlib.Check(pid, tier)
+    thms = ["IsalVerif.HashMB.C20_hash", "IsalVerif.HashMB.C20_first_defines"]
+    for name, detail in vlib.lean_obligations(chk, "IsalVerif.Props.C20", thms, extra_targets=["isal_model"]):
+        chk.violation("Lean obligation no longer checks: %s" % name, {"kind": "obligation", "obligation": name, "detail": detail}, no_input=True)
+    if os.path.exists(os.path.join(vlib.LEAN, "IsalVerif", "Props", "C20Gcm.lean")):
+        g = ["IsalVerif.C20Gcm.C20_gcm", "IsalVerif.C20Gcm.C20_gcm_noninterference"]
+        for name, detail in vlib.lean_obligations(chk, "IsalVerif.Props.C20Gcm", g):
+            chk.violation("Lean obligation no longer checks: %s" % name, {"kind": "obligation", "obligation": name, "detail": detail}, no_input=True)
+    envs = [{"VERIF_POISON": "1"}, {"VERIF_POISON": "2"}]
+    results = _mode_sweep(chk, tier, envs, ("C20-",))
+    total = _report_mode_results(chk, results, ("C20-", "C01-", "C02-", "C03-", "C04-", "C07-"))
+    # paired executions: same declared inputs, different poison -> identical result streams
+    by = {}
+    for kind, key, tag, r in results:
+        by.setdefault((kind, key, r["args"][2]), []).append((tag, r))
+    pairs = 0
+    for (kind, key, sd), lst in by.items():
+        if len(lst) == 2:
+            pairs += 1
+            a, b = lst[0][1].get("impl_lines", []), lst[1][1].get("impl_lines", [])
+            same = a == b and len(a) > 0
+            chk.oblige("paired executions agree %s %s seed=%s" % (kind, key, sd), same, "lines=%d" % len(a))
+            if not same:
+                i = next((i for i, (x, y) in enumerate(zip(a, b)) if x != y), -1)
+                chk.violation("result depends on poisoned (undeclared) state in %s" % key,
+                              {"kind": "input", "family": key, "args": lst[0][1]["args"], "line": i,
+                               "run1": a[i][:200] if i >= 0 else "", "run2": b[i][:200] if i >= 0 else ""},
+                              match={"family": key, "monitor": "paired"})
+    chk.cov["evaluations"] = total
+    chk.cov["distinct_nontrivial"] = pairs
+    chk.cov["paired_executions"] = pairs
+    chk.trusted = ["Lean 4.33.0 kernel; axioms propext, Classical.choice, Quot.sound",
+                   "harness/tramp.asm poisons rax,r10,r11 and the unused argument registers, zmm0-31, k1-k7, arithmetic flags, 64 KiB of dead stack; objects are allocated from differently filled memory",
+                   "32-bit arguments are passed zero-extended (as every compiled caller does): recorded assumption"]
+    chk.assumptions = ["vector-register inputs of internal kernels are outside the static rule; covered dynamically only",
+                       "mh_* and rolling-hash drivers run without the register trampoline (memory poisoning only)"]
+    return chk.finish(level="proof", rule="every (alg,family) hash manager and every AES family entry point executed twice on the same "
+                      "seeded op stream under two different poison patterns; result streams compared with each other and with the Lean model")
+
+
+def check_c08(pid, tier, replay=None):
+    chk = vlib.Check(pid, tier)
+    thms = ["IsalVerif.C08.C08_hash_partial", "IsalVerif.C08.C08_hash_pad64", "IsalVerif.C08.C08_hash_pad128",
+            "IsalVerif.C08.C08_job_blocks", "IsalVerif.C08.C08_output_lengths", "IsalVerif.Props.C09.C09_run"]
+    for name, detail in vlib.lean_obligations(chk, "IsalVerif.Props.C08", thms, extra_targets=["isal_model"]):
+        chk.violation("Lean obligation no longer checks: %s" % name, {"kind": "obligation", "obligation": name, "detail": detail}, no_input=True)
+    envs = [{"VERIF_GUARD": "1"}, {"VERIF_GUARD": "2"}]
+    results = _mode_sweep(chk, tier, envs, ("C08-",))
+    total = _report_mode_results(chk, results, ("C08-",))
+    chk.cov["evaluations"] = total
+    chk.cov["distinct_nontrivial"] = len(results)
+    chk.cov["exhaustive"] = False
+    chk.trusted = ["Lean 4.33.0 kernel; axioms propext, Classical.choice, Quot.sound",
+                   "harness/guard.h: every data/key/IV/tweak/tag/AAD buffer flush against a PROT_NONE page (end-flush and start-flush), canary slack on the other side; input checksums",
+                   "a wide load inside a kernel is only visible to the guard pages, not to the model"]
+    chk.assumptions = ["manager/context/key-data objects are not yet guard-placed (alignment contracts): covered by canaries only",
+                       "mh_* and rolling-hash buffers are covered by their own drivers' canaries, not by guard pages"]
+    return chk.finish(level="proof", rule="seeded op streams per family with every buffer placed against an inaccessible page; "
+                      "length classes 0,<16,16k,tail,big incl. CBC len=0; any fault or damaged canary is a violation with the op as replay")
+
+
+def check_c14(pid, tier, replay=None):
+    chk = vlib.Check(pid, tier)
+    results = _mode_sweep(chk, tier, [{"VERIF_CAPTURE": "1"}], ("C14-",), want_hash=False)
+    total = _report_mode_results(chk, results, ("C14-",))
+    chk.cov["evaluations"] = total
+    chk.cov["distinct_nontrivial"] = len(results)
+    chk.trusted = ["harness/tramp.asm + sens.h: capture of zmm0-31 and 64 KiB dead stack right after the return; sensitive values from the Lean-validated schedules"]
+    return chk.finish(level="proof", rule="every AES family entry point over seeded length classes; capture after return")
+
+
 def check_c15(pid, tier, replay=None):
     """big totals: every family really hashes a stream crossing 2^29 (quick) / 2^32 / 2^32+2^29 (thorough)"""
     import subprocess
@@ -550,7 +675,7 @@ def check_c15(pid, tier, replay=None):
                       "digests/totals compared with the Lean model and the final digest with OpenSSL")
 
 
-CHECKS = {"C01": check_hash, "C06": check_hash, "C11": check_hash, "C15": check_c15, "C12": check_c12, "C09": check_c09, "C05": check_mh, "C10": check_mh,
+CHECKS = {"C01": check_hash, "C06": check_hash, "C11": check_hash, "C15": check_c15, "C12": check_c12, "C09": check_c09, "C20": check_c20, "C08": check_c08, "C14": check_c14, "C05": check_mh, "C10": check_mh,
           "C02": check_aes, "C03": check_aes, "C04": check_aes, "C07": check_aes}
 
 
